@@ -26,10 +26,16 @@ def import_repo():
 
 
 def load_known():
-    if not os.path.exists(KNOWN):
-        return []
-    with open(KNOWN) as f:
-        return json.load(f)["findings"]
+    """known_findings.json plus known_findings.d/*.json (one file per property)."""
+    out = []
+    paths = [KNOWN] if os.path.exists(KNOWN) else []
+    d = os.path.join(VERIF, "known_findings.d")
+    if os.path.isdir(d):
+        paths += [os.path.join(d, f) for f in sorted(os.listdir(d)) if f.endswith(".json")]
+    for p in paths:
+        with open(p) as f:
+            out += json.load(f)["findings"]
+    return out
 
 
 class Check:
